@@ -4,7 +4,29 @@ import sys
 pid = sys.argv[1]
 wave = sys.argv[2] if len(sys.argv) > 2 else "1"
 wt = f"/tmp/wt/{pid}" if wave == "1" else f"/tmp/wt{wave}/{pid}"
-prop = open(f"/tmp/wt/prop_{pid}.txt").read()  # property text only
+import json, os, glob
+_props = {json.loads(l)["id"]: json.loads(l) for l in open("/verif/properties.jsonl") if l.strip()}
+_pf = f"/tmp/wt/prop_{pid}.txt"
+if os.path.exists(_pf):
+    prop = open(_pf).read()  # property text only
+else:
+    _p = _props[pid]
+    prop = f"{pid} - {_p.get('title', '')}\n\n{_p.get('statement', _p.get('description', ''))}\n"
+earlier = ""
+if wave == "3":
+    # one-line descriptions of the changes earlier authors already produced for this property (their own words; nothing of /verif's checks)
+    lines = []
+    for d in sorted(glob.glob(f"/verif/seeded/{pid}-*/")):
+        mp = os.path.join(d, "meta.json")
+        if os.path.exists(mp):
+            m = json.load(open(mp))
+            head = ""
+            np_ = os.path.join(d, "notes.md")
+            if os.path.exists(np_):
+                head = next((l.strip("# ").strip() for l in open(np_) if l.strip()), "")
+            lines.append(f"  - {head} [needs: {m.get('needs_to_manifest', '?')}]")
+    earlier = ("Other people have ALREADY produced the following changes for this property; do NOT reproduce any of them or a close variant "
+               "(different function, different mechanism, different trigger please):\n" + "\n".join(lines) + "\n\n")
 print(f"""You are working alone in a scratch git worktree of the Python library mdominijanni/inferno
 (a spiking-neural-network simulation library on PyTorch) at {wt}. Work ONLY inside {wt}.
 Do not read, list or modify anything under /verif or /repo, and do not look for other people's checks
@@ -29,7 +51,15 @@ The two mutants should touch different mechanisms / different aspects of the pro
 """ + ("""At least one of the two should concern a clause of the property OTHER than its first sentence, and at least one should
 involve an interaction of two code sites (or a code path that only a non-default argument / less common class reaches).
 Prefer files and functions that are not the most obvious anchor of the property.
-""" if wave != "1" else "") + f"""
+""" if wave == "2" else "") + ("""Mutant a should be a STATE / ALIASING / ORDERING slip: e.g. an in-place operation on a tensor that is shared with the caller or
+with stored state, a missing .clone() so that a returned/stored tensor aliases a buffer that is later overwritten, a local scratch
+tensor hoisted to module/instance scope, a cursor/pointer/counter advanced before (or after) the write it guards, a flag or cache
+updated on one path but not on the sibling path, state that survives a clear()/reset or is lost by one.
+Mutant b should be an ARITHMETIC / SEMANTIC slip in a helper that the anchored code CALLS but that lives in another file or
+layer of the library (inferno/functional, inferno/core/math, inferno/core/tensor, inferno/_internal, a mixin, a base class),
+and it should manifest only for one particular element of the property's 'Quantified over' domain that is not the default
+(a particular class, mode, option, dtype, shape or boundary value listed there).
+""" + earlier if wave == "3" else "") + f"""
 For EACH mutant (a, b):
  1. Make the change in the worktree (start each from a clean tree: `git -C {wt} checkout -- .`).
  2. Run the existing test suite and make sure it still passes:
